@@ -444,3 +444,45 @@ class K2(KBase):
     def _yatiml_recognize(cls, node: yatiml.UnknownNode) -> None:
         node.require_attribute_value('kind', 'k2')
         node.require_attribute('v', int)
+
+
+# ------------------------------------ C18: same content, different types
+class Typed:
+    def __init__(self, paths: List[pathlib.Path], names: List[str],
+                 idents: Optional[List[Ident]] = None,
+                 m1: Optional[Dict[str, pathlib.Path]] = None,
+                 m2: Optional[Dict[str, str]] = None,
+                 anyv: Any = None) -> None:
+        T(self, locals())
+        self.paths, self.names, self.idents = paths, names, idents
+        self.m1, self.m2, self.anyv = m1, m2, anyv
+
+
+# ------------------- C03: custom recogniser above auto-recognised subclasses
+class RBase:
+    def __init__(self, name: str) -> None:
+        T(self, locals())
+        self.name = name
+
+    @classmethod
+    def _yatiml_recognize(cls, node: yatiml.UnknownNode) -> None:
+        node.require_attribute('name', str)
+
+
+class RSub(RBase):
+    def __init__(self, name: str, limit: int) -> None:
+        super().__init__(name)
+        self.limit = limit
+
+
+class RSubSub(RSub):
+    def __init__(self, name: str, limit: int, extra: int) -> None:
+        super().__init__(name, limit)
+        self.extra = extra
+
+
+class Other:
+    """Matches what Circle and Ellipse match, outside their hierarchy."""
+    def __init__(self, center: List[float], radius: float) -> None:
+        T(self, locals())
+        self.center, self.radius = center, radius
